@@ -214,15 +214,21 @@ func insertMethod(class, super slip.Class, method *slip.Method, combo *slip.Comb
 	if pos < len(m.Combinations) && m.Combinations[pos].From == class {
 		pos++
 	}
+	// Skip over the combinations of the classes that precede super in the
+	// precedence order. The new combination goes just before the
+	// combinations of the classes that follow super.
 	for _, f := range class.InheritsList() {
-		if len(m.Combinations) <= pos || m.Combinations[pos].From == super {
+		if f == super || len(m.Combinations) <= pos {
 			break
 		}
 		if m.Combinations[pos].From == f {
 			pos++
 		}
 	}
-	m.Combinations = append(append(m.Combinations[:pos], combo), m.Combinations[pos:]...)
+	combos := make([]*slip.Combination, 0, len(m.Combinations)+1)
+	combos = append(combos, m.Combinations[:pos]...)
+	combos = append(combos, combo)
+	m.Combinations = append(combos, m.Combinations[pos:]...)
 }
 
 // DefCallerMethod defines a method for a caller.
